@@ -267,7 +267,7 @@ def families(ctx):
             where.append((chk, i))
     verdict_at = {}
     res = _coq_shards(ctx, ["OV.Torch.Onnx", "OV.Torch.Aten", "OV.Torch.Check", "OV.Torch.Spec2", "OV.Torch.Aten2", "OV.Torch.Check2",
-                           "OV.Torch.Spec3", "OV.Torch.Aten3", "OV.Torch.Check3"], bodies)
+                           "OV.Torch.Spec3", "OV.Torch.Aten3", "OV.Torch.Upsample", "OV.Torch.Check3"], bodies)
     model_ok = True
     for si, (ok, vals, raw) in enumerate(res):
         if not ok or not vals:
